@@ -87,6 +87,12 @@ fn check_htyp_in(h: u8, ecu_bytes: &[u8; 4], ecu_text: &str, canonical: bool, st
     if back != h {
         return Err(viol!("htyp:reencode", "{} re-encodes to {:#04x}", ctx, back));
     }
+    // stamping the decoded message with a storage header does not touch its standard header
+    let stamped = guard(|| m.clone().add_storage_header(Some(dlt_core::dlt::DltTimeStamp { seconds: 1, microseconds: 2 }))).map_err(|p| Violation::from_panic("add_storage_header", &p))?;
+    let (hb, sb) = guard(|| (stamped.header.header_type_byte(), stamped.as_bytes())).map_err(|p| Violation::from_panic("header_type_byte after add_storage_header", &p))?;
+    if hb != h || sb.get(16) != Some(&h) {
+        return Err(viol!("htyp:after-add-storage-header", "{}: after add_storage_header the header type is {:#04x} (byte on the wire {:?})", ctx, hb, sb.get(16)));
+    }
     let bytes = guard(|| m.as_bytes()).map_err(|p| Violation::from_panic("as_bytes", &p))?;
     if bytes.get(start) != Some(&h) {
         return Err(viol!("htyp:reserialise", "{}: the re-serialised message carries header type {:?}", ctx, bytes.get(start)));
